@@ -85,8 +85,13 @@ func (l *naiveCreator) CreateWithTTL(ctx context.Context, key []byte, val []byte
 				if errors.Is(err, storage.ErrCASFailed) {
 					// the tombstoned revision key may have been compacted since it was observed:
 					// the key is still absent, so create it instead of reporting a conflict
-					if _, getErr := l.store.Get(ctx, revisionKey); errors.Is(getErr, storage.ErrKeyNotFound) {
+					_, getErr := l.store.Get(ctx, revisionKey)
+					if errors.Is(getErr, storage.ErrKeyNotFound) {
 						return l.create(ctx, revisionKey, objectKey, val, revisionBytes, ttl)
+					}
+					if getErr != nil {
+						// it cannot be told whether the key is absent or was written: storage is unavailable right now
+						return storage.ErrUnavailable
 					}
 				}
 				return err
